@@ -296,6 +296,61 @@ Proof.
     repeat match goal with |- context [if ?c then _ else _] => destruct c end; reflexivity.
 Qed.
 
+(* SignedInteger (after fix 3c4765d): an unsigned value above MaxInt64 is rejected with an
+   overflow error, so the round trip needs every unsigned integer of the item to fit int64 when
+   the decoder has SignedInteger set *)
+Definition uint_fits (D : dopts) (n : N) : Prop := d_signedinteger D = true -> n < 2 ^ 63.
+
+Fixpoint sint_ok (D : dopts) (i : item) : Prop :=
+  match i with
+  | IUint n => uint_fits D n
+  | IArr l => (fix go l := match l with [] => True | x :: r => sint_ok D x /\ go r end) l
+  | IMap l => (fix go l := match l with
+                           | [] => True
+                           | kv :: r => sint_ok D (fst kv) /\ sint_ok D (snd kv) /\ go r
+                           end) l
+  | _ => True
+  end.
+
+Lemma sint_ok_arr : forall D l, sint_ok D (IArr l) <-> Forall (sint_ok D) l.
+Proof.
+  intros D l. cbn [sint_ok]. induction l as [|x l IH]; split; intros H.
+  - constructor.
+  - exact I.
+  - destruct H as [Hx Hr]. constructor; [assumption|apply IH; assumption].
+  - inversion H; subst. split; [assumption|apply IH; assumption].
+Qed.
+
+Lemma sint_ok_map : forall D l, sint_ok D (IMap l) <-> Forall (fun kv => sint_ok D (fst kv) /\ sint_ok D (snd kv)) l.
+Proof.
+  intros D l. cbn [sint_ok]. induction l as [|x l IH]; split; intros H.
+  - constructor.
+  - exact I.
+  - destruct H as [Hk [Hv Hr]]. constructor; [split; assumption|apply IH; assumption].
+  - inversion H as [|? ? [Hk Hv] Hr]; subst. repeat apply conj; try assumption. apply IH; assumption.
+Qed.
+
+Lemma sint_ok_unsigned : forall D i, d_signedinteger D = false -> sint_ok D i.
+Proof.
+  intros D i H. induction i using item_ind'; cbn [sint_ok]; try exact I.
+  - unfold uint_fits. rewrite H. discriminate.
+  - apply sint_ok_arr. assumption.
+  - apply sint_ok_map. assumption.
+Qed.
+
+Lemma mkuint_r_ok : forall D v, uint_fits D v -> mkuint_r D v = Ok (mkuint D v).
+Proof.
+  intros D v H. unfold mkuint_r, uint_fits in *. destruct (d_signedinteger D); [|reflexivity].
+  specialize (H eq_refl). change (2 ^ 63) with 9223372036854775808 in *.
+  destruct (N.leb_spec 9223372036854775808 v); [lia|reflexivity].
+Qed.
+
+Lemma mkuint_r_overflow : forall D v, d_signedinteger D = true -> 2 ^ 63 <= v -> mkuint_r D v = Err EOverflow.
+Proof.
+  intros D v H Hv. unfold mkuint_r. rewrite H. change (2 ^ 63) with 9223372036854775808 in *.
+  destruct (N.leb_spec 9223372036854775808 v); [reflexivity|lia].
+Qed.
+
 (* ================================================================== *)
 (* scalars *)
 
@@ -305,37 +360,45 @@ Section Scalars.
   Variable cap : N.
   Hypothesis Hcap : goslice cap.
 
-  Lemma dec_uint_k : forall k hd v f d rest,
+  Lemma dec_uint_k_r : forall k hd v f d rest,
     classify hd = DUint k -> v < 256 ^ N.of_nat k ->
-    decF D cap (S f) d (hd :: be_put k v ++ rest) = Ok (mkuint D v, rest).
+    decF D cap (S f) d (hd :: be_put k v ++ rest) = do it <- mkuint_r D v ;; Ok (it, rest).
   Proof.
     intros k hd v f d rest Hc Hv. rewrite decF_S. unfold dec_body. rewrite Hc.
     rewrite rd_nk_put. cbn [bind]. rewrite be_get_put by assumption. reflexivity.
   Qed.
 
-  Lemma dec_uint : forall n f d rest, n < 2 ^ 64 ->
+  Lemma dec_uint_k : forall k hd v f d rest,
+    classify hd = DUint k -> v < 256 ^ N.of_nat k -> uint_fits D v ->
+    decF D cap (S f) d (hd :: be_put k v ++ rest) = Ok (mkuint D v, rest).
+  Proof.
+    intros k hd v f d rest Hc Hv Hf. rewrite dec_uint_k_r by assumption.
+    rewrite mkuint_r_ok by assumption. reflexivity.
+  Qed.
+
+  Lemma dec_uint : forall n f d rest, n < 2 ^ 64 -> uint_fits D n ->
     decF D cap (S f) d (enc_uint O n ++ rest) = Ok (norm_uint O D n, rest).
   Proof.
-    intros n f d rest Hn. unfold enc_uint, norm_uint.
+    intros n f d rest Hn Hfit. unfold enc_uint, norm_uint.
     destruct (N.leb_spec n 127) as [H1|H1].
     - destruct (e_nofixednum O); cbn [andb negb].
       + rewrite wrap_small by (change (2 ^ 8) with 256; lia). rewrite one_byte by lia.
-        apply (dec_uint_k 1 bUint8 n); [reflexivity|change (256 ^ N.of_nat 1) with 256; lia].
+        apply (dec_uint_k 1 bUint8 n); [reflexivity|change (256 ^ N.of_nat 1) with 256; lia|assumption].
       + rewrite wrap_small by (change (2 ^ 8) with 256; lia).
         cbn [app]. rewrite decF_S. unfold dec_body.
         destruct (classify_posfix n H1) as [E1 E2]. rewrite E1, E2. reflexivity.
     - cbn [andb].
       destruct (N.leb_spec n 255) as [H2|H2].
       { rewrite wrap_small by (change (2 ^ 8) with 256; lia). rewrite one_byte by lia.
-        apply (dec_uint_k 1 bUint8 n); [reflexivity|change (256 ^ N.of_nat 1) with 256; lia]. }
+        apply (dec_uint_k 1 bUint8 n); [reflexivity|change (256 ^ N.of_nat 1) with 256; lia|assumption]. }
       destruct (N.leb_spec n 65535) as [H3|H3].
       { rewrite wrap_small by (change (2 ^ 16) with 65536; lia).
-        apply (dec_uint_k 2 bUint16 n); [reflexivity|change (256 ^ N.of_nat 2) with 65536; lia]. }
+        apply (dec_uint_k 2 bUint16 n); [reflexivity|change (256 ^ N.of_nat 2) with 65536; lia|assumption]. }
       destruct (N.leb_spec n 4294967295) as [H4|H4].
       { rewrite wrap_small by (change (2 ^ 32) with 4294967296; lia).
-        apply (dec_uint_k 4 bUint32 n); [reflexivity|change (256 ^ N.of_nat 4) with 4294967296; lia]. }
+        apply (dec_uint_k 4 bUint32 n); [reflexivity|change (256 ^ N.of_nat 4) with 4294967296; lia|assumption]. }
       rewrite wrap_small by assumption.
-      apply (dec_uint_k 8 bUint64 n); [reflexivity|change (256 ^ N.of_nat 8) with (2 ^ 64); assumption].
+      apply (dec_uint_k 8 bUint64 n); [reflexivity|change (256 ^ N.of_nat 8) with (2 ^ 64); assumption|assumption].
   Qed.
 
   Lemma dec_int_k : forall k hd v f d rest,
@@ -353,7 +416,9 @@ Section Scalars.
     change (2 ^ 63)%Z with 9223372036854775808%Z in Hz.
     destruct (e_posintunsigned O && (0 <=? z)%Z) eqn:Epu.
     { apply andb_true_iff in Epu. destruct Epu as [_ Hpos]. apply Z.leb_le in Hpos.
-      rewrite wrapZ_nonneg by (pow_consts; lia). apply dec_uint. change (2 ^ 64) with 18446744073709551616. lia. }
+      rewrite wrapZ_nonneg by (pow_consts; lia).
+      apply dec_uint; [change (2 ^ 64) with 18446744073709551616; lia|].
+      intros _. change (2 ^ 63) with 9223372036854775808. lia. }
     assert (W8 : wrapZ 8 z < 256 ^ N.of_nat 1) by (apply (wrapZ_lt 8)).
     assert (W16 : wrapZ 16 z < 256 ^ N.of_nat 2) by (apply (wrapZ_lt 16)).
     assert (W32 : wrapZ 32 z < 256 ^ N.of_nat 4) by (apply (wrapZ_lt 32)).
@@ -737,54 +802,55 @@ Section RoundTrip.
   Hypothesis Hcap : goslice cap.
 
   Definition rt_dec (i : item) : Prop :=
-    supported i -> forall f d rest,
+    supported i -> sint_ok D i -> forall f d rest,
     (2 * length (enc O i) + 1 <= f)%nat -> (d + Z.of_nat (depth i) < maxdepth D)%Z ->
     decF D cap f d (enc O i ++ rest) = Ok (norm O D i, rest).
 
-  Lemma rt_seq : forall l, Forall rt_dec l -> Forall supported l ->
+  Lemma rt_seq : forall l, Forall rt_dec l -> Forall supported l -> Forall (sint_ok D) l ->
     forall f d rest, (2 * length (concat (map (enc O) l)) + 2 <= f)%nat ->
     (d + Z.of_nat (ldepth l) < maxdepth D)%Z ->
     seqF D cap f d (len l) (concat (map (enc O) l) ++ rest) = Ok (map (norm O D) l, rest).
   Proof.
-    induction l as [|x l IH]; intros HP HS f d rest Hf Hd.
+    induction l as [|x l IH]; intros HP HS HI f d rest Hf Hd.
     - rewrite seqF_eq. reflexivity.
-    - inversion HP as [|? ? Hx Hl]; subst. inversion HS as [|? ? Sx Sl]; subst.
+    - inversion HP as [|? ? Hx Hl]; subst. inversion HS as [|? ? Sx Sl]; subst. inversion HI as [|? ? Ix Il]; subst.
       rewrite seqF_eq. rewrite len_cons.
       destruct (N.eqb_spec (len l + 1) 0) as [E|_]; [lia|].
       cbn [map concat] in *. rewrite app_length in Hf. pose proof (enc_nonempty O x) as Hne.
       destruct f as [|f]; [lia|].
       cbn [ldepth fold_right] in Hd. fold (ldepth l) in Hd.
-      rewrite <- app_assoc. rewrite (Hx Sx) by lia. cbn [bind].
+      rewrite <- app_assoc. rewrite (Hx Sx Ix) by lia. cbn [bind].
       replace (len l + 1 - 1) with (len l) by lia.
-      rewrite (IH Hl Sl) by lia. reflexivity.
+      rewrite (IH Hl Sl Il) by lia. reflexivity.
   Qed.
 
   Lemma rt_pairs : forall l, Forall (fun kv => rt_dec (fst kv) /\ rt_dec (snd kv)) l -> Forall kv_supported l ->
+    Forall (fun kv => sint_ok D (fst kv) /\ sint_ok D (snd kv)) l ->
     forall f d rest,
     (2 * length (concat (map (fun kv => enc O (fst kv) ++ enc O (snd kv)) l)) + 2 <= f)%nat ->
     (d + Z.of_nat (pdepth l) < maxdepth D)%Z ->
     pairsF D cap f d (len l) (concat (map (fun kv => enc O (fst kv) ++ enc O (snd kv)) l) ++ rest)
     = Ok (map (fun kv => (key_fix (norm O D (fst kv)), norm O D (snd kv))) l, rest).
   Proof.
-    induction l as [|x l IH]; intros HP HS f d rest Hf Hd.
+    induction l as [|x l IH]; intros HP HS HI f d rest Hf Hd.
     - rewrite pairsF_eq. reflexivity.
-    - inversion HP as [|? ? [Hk Hv] Hl]; subst. inversion HS as [|? ? [Sk [Sh Sv]] Sl]; subst.
+    - inversion HP as [|? ? [Hk Hv] Hl]; subst. inversion HS as [|? ? [Sk [Sh Sv]] Sl]; subst. inversion HI as [|? ? [Ik Iv] Il]; subst.
       rewrite pairsF_eq. rewrite len_cons.
       destruct (N.eqb_spec (len l + 1) 0) as [E|_]; [lia|].
       cbn [map concat] in *. rewrite !app_length in Hf.
       pose proof (enc_nonempty O (fst x)) as Hne1. pose proof (enc_nonempty O (snd x)) as Hne2.
       destruct f as [|f]; [lia|].
       cbn [pdepth fold_right] in Hd. fold (pdepth l) in Hd.
-      rewrite <- !app_assoc. rewrite (Hk Sk) by lia. cbn [bind].
-      rewrite (Hv Sv) by lia. cbn [bind].
+      rewrite <- !app_assoc. rewrite (Hk Sk Ik) by lia. cbn [bind].
+      rewrite (Hv Sv Iv) by lia. cbn [bind].
       rewrite hashable_norm by assumption.
       replace (len l + 1 - 1) with (len l) by lia.
-      rewrite (IH Hl Sl) by lia. reflexivity.
+      rewrite (IH Hl Sl Il) by lia. reflexivity.
   Qed.
 
   Lemma dec_enc_aux : forall i, rt_dec i.
   Proof.
-    induction i using item_ind'; unfold rt_dec; intros HS f d rest Hf Hd.
+    induction i using item_ind'; unfold rt_dec; intros HS HI f d rest Hf Hd.
     - (* nil *) destruct f as [|f]; [lia|]. cbn [enc app]. rewrite decF_S. reflexivity.
     - (* bool *) destruct f as [|f]; [lia|]. cbn [enc app]. rewrite decF_S. destruct b; reflexivity.
     - (* int *) destruct f as [|f]; [lia|]. cbn [enc]. apply dec_int; assumption.
@@ -805,7 +871,7 @@ Section RoundTrip.
       + apply dec_bin; assumption.
       + apply dec_rawstr; [assumption|left; reflexivity|assumption].
     - (* arr *)
-      apply supported_arr in HS. destruct HS as [Hl HS]. change (2 ^ 32) with 4294967296 in Hl.
+      apply supported_arr in HS. destruct HS as [Hl HS]. apply sint_ok_arr in HI. change (2 ^ 32) with 4294967296 in Hl.
       rewrite enc_arr_eq in *. cbn [norm].
       destruct (head_rt ctList FArr (len l)) as [hd [tl [w [E1 [E2 E3]]]]]; [unfold fam_of; tauto|assumption|].
       rewrite E1 in *. rewrite app_length in Hf. cbn [length] in Hf. destruct f as [|f]; [lia|].
@@ -815,7 +881,7 @@ Section RoundTrip.
       unfold depth_incr. destruct (Z.leb_spec (maxdepth D) (d + 1)) as [Hle|Hgt]; [lia|]. cbn [bind].
       rewrite rt_seq; try assumption; try lia. reflexivity.
     - (* map *)
-      apply supported_map in HS. destruct HS as [Hl HS]. change (2 ^ 32) with 4294967296 in Hl.
+      apply supported_map in HS. destruct HS as [Hl HS]. apply sint_ok_map in HI. change (2 ^ 32) with 4294967296 in Hl.
       rewrite enc_map_eq in *. cbn [norm].
       destruct (head_rt ctMap FMap (len l)) as [hd [tl [w [E1 [E2 E3]]]]]; [unfold fam_of; tauto|assumption|].
       rewrite E1 in *. rewrite app_length in Hf. cbn [length] in Hf. destruct f as [|f]; [lia|].
@@ -943,14 +1009,40 @@ End RoundTrip.
    leaves exactly what followed; for every item in the encoder's range whose nesting fits
    MaxDepth, every option vector, every rest; the whole input being a Go slice. *)
 Theorem dec_enc : forall O D i rest,
-  supported i -> (Z.of_nat (depth i) < maxdepth D)%Z ->
+  supported i -> sint_ok D i -> (Z.of_nat (depth i) < maxdepth D)%Z ->
   goslice (len (enc O i ++ rest)) ->
   dec_naked D (dec_fuel (enc O i ++ rest)) (enc O i ++ rest) = Ok (norm O D i, rest).
 Proof.
-  intros O D i rest HS Hd Hc. unfold dec_naked.
-  apply (dec_enc_aux O D _ Hc i HS).
+  intros O D i rest HS HI Hd Hc. unfold dec_naked.
+  apply (dec_enc_aux O D _ Hc i HS HI).
   - unfold dec_fuel. rewrite app_length. lia.
   - lia.
+Qed.
+
+(* the statement as it was before fix 3c4765d, for decoders without SignedInteger *)
+Corollary dec_enc_unsigned : forall O D i rest,
+  d_signedinteger D = false ->
+  supported i -> (Z.of_nat (depth i) < maxdepth D)%Z ->
+  goslice (len (enc O i ++ rest)) ->
+  dec_naked D (dec_fuel (enc O i ++ rest)) (enc O i ++ rest) = Ok (norm O D i, rest).
+Proof. intros O D i rest HU HS Hd Hc. apply dec_enc; try assumption. apply sint_ok_unsigned; assumption. Qed.
+
+(* SignedInteger and an unsigned integer above MaxInt64: exactly the overflow error, once the
+   value has been read (never a sign-flipped int64) *)
+Theorem dec_enc_signed_overflow : forall O D n rest,
+  d_signedinteger D = true -> 2 ^ 63 <= n < 2 ^ 64 ->
+  dec_naked D (dec_fuel (enc O (IUint n) ++ rest)) (enc O (IUint n) ++ rest) = Err EOverflow.
+Proof.
+  intros O D n rest HS [Hlo Hhi]. unfold dec_naked, dec_fuel. cbn [enc]. unfold enc_uint.
+  change (2 ^ 63) with 9223372036854775808 in Hlo.
+  destruct (N.leb_spec n 127); [lia|]. destruct (N.leb_spec n 255); [lia|].
+  destruct (N.leb_spec n 65535); [lia|]. destruct (N.leb_spec n 4294967295); [lia|].
+  rewrite wrap_small by assumption. rewrite <- app_comm_cons.
+  set (b := bUint64 :: be_put 8 n ++ rest).
+  replace (2 * length b + 1)%nat with (S (2 * length b)) by lia.
+  change (decF D (len b) (S (2 * length b)) 0 b = Err EOverflow). unfold b at 3.
+  rewrite (dec_uint_k_r D _ 8 bUint64 n) by (try reflexivity; change (256 ^ N.of_nat 8) with (2 ^ 64); assumption).
+  rewrite mkuint_r_overflow by (try assumption; change (2 ^ 63) with 9223372036854775808; lia). reflexivity.
 Qed.
 
 (* skip_enc: the second parser consumes exactly the encoding *)
